@@ -1,16 +1,12 @@
 #!/bin/bash
+# evaluation pass 4: the wave-3 changes that the first evaluation missed, after strengthening
 cd /verif
 run() { tools/run_seeded.sh "$@"; }
-run C29-save-skip-keeps-staging C29
-run C30-atomic-write-fast-path-new-file C30 C05
-run C25-collision-scan-skipped-for-source-target C25
-run C05-nonatomic-first-write-of-output C05
-run C04-restored-file-dependents-not-refreshed C04
-run C19-ao22-constfold-wrong-leg C19 C20
-run C08-aligner-inst-list-reference-line C08
-run C02-jit-lshr-count-equals-width C02 C18
-run C01-case-later-label-4state-plain-case C01
-run C14-ssa-root-sources-dedup C14
-run C17-lshr-u64-clamp-63 C17 C18
-run C12-comment-column-second-on-line C12 C13
+run C03-vsplit-stability-guard-last-pos C03
+run C35-write-u64-keeps-stale-mask C35
+run C15-read-before-assign-not-per-bit C15
+run C13-anchored-column-bytes-not-chars C13 C28
+run C06-sv-member-dedup-by-leaf-name C06
+run C24-mixin-interface-resolve-order C24
+run C07-on-remove-keeps-document-map-entry C07
 echo ALLDONE
